@@ -98,7 +98,9 @@ var c09Counts = []uint64{0, 1, 7}
 //	0 [EVENT x]            1 [EVENT x, EVENT y]     2 [EVENT x, EVENT x] (same id in flight)
 //	3 [EVENT x, wait OK, EVENT x]                   4 [COUNT c, COUNT d]
 //	5 [COUNT c, COUNT c]   6 [EVENT x, COUNT c, EVENT y]
-const C09Scripts = 7
+//	7 [COUNT c, CLOSE c]   8 [COUNT c, CLOSE c, COUNT c]   9 [EVENT x, CLOSE c, REQ c, COUNT c]
+//	(a CLOSE or REQ with the id of a COUNT in flight concerns subscriptions, not the COUNT)
+const C09Scripts = 10
 
 // MergeOKCount explores one merge session over scripted children.
 // params: n (children), v0..v2 (verdict index per child), k0..k2 (count index per child), script.
@@ -157,6 +159,12 @@ func MergeOKCount(h *vsched.H) {
 			c.Write(CountMsg("c"), CountMsg("c"))
 		case 6:
 			c.Write(EventMsg(x), CountMsg("c"), EventMsg(y))
+		case 7:
+			c.Write(CountMsg("c"), CloseMsg("c"))
+		case 8:
+			c.Write(CountMsg("c"), CloseMsg("c"), CountMsg("c"))
+		case 9:
+			c.Write(EventMsg(x), CloseMsg("c"), ReqMsg("c"), CountMsg("c"))
 		}
 	}()
 	h.WaitQuiescent()
